@@ -135,6 +135,12 @@ class _StubScore:
     def __init__(self, starts):
         self.measure_start_tree_stages = starts
 
+    def measures_count(self):
+        return len(self.measure_start_tree_stages)
+
+    def get_first_measure(self):
+        return 1
+
 
 def ob_d(starts: list, a: int, b: int, a_none: bool, b_none: bool) -> bool:
     """Exporter.export_options_validator on a score with ANY number of measures M (the length of a symbolic list) and any integer
@@ -148,6 +154,9 @@ def ob_d(starts: list, a: int, b: int, a_none: bool, b_none: bool) -> bool:
     bad = (fa is not None and fa < 0) or (fb is not None and fb > M) or (fa is not None and fb is not None and fb < fa)
     try:
         Exporter.export_options_validator(_StubScore(starts), opts)
+    except AttributeError:
+        from crosshair.util import IgnoreAttempt
+        raise IgnoreAttempt('the validator reads more of the document than the stub offers')      # inconclusive, never an alarm
     except ValueError:
         check(bad, lambda: f'ValueError for the valid range from_measure={concrete(fa)} to_measure={concrete(fb)} on a score of {concrete(M)} measures')
         return True
@@ -289,7 +298,8 @@ UNTRACE = [('kernpy.core.exporter', 'Exporter.append_row'), ('kernpy.core.export
 
 OBLIGATIONS = [
     Ob(id='C07.d', fn=ob_d, title='the range validator accepts exactly 0 <= from <= to <= M, for every measure count M and every integer pair (either may be omitted)',
-       budget_s={'quick': 120, 'thorough': 600}, opaque_numbers=True,
+       budget_s={'quick': 120, 'thorough': 600}, opaque_numbers=True, stub_optional=True,
+       stubs=['Document replaced by an object offering measure_start_tree_stages / measures_count() / get_first_measure() only (C07.d)'],
        witnesses=[{'starts': [1, 3, 5], 'a': 1, 'b': 3, 'a_none': False, 'b_none': False}, {'starts': [2], 'a': 0, 'b': 2, 'a_none': True, 'b_none': False}], min_confirmed=8,
        symbolic='measure-start table of symbolic length (M unbounded), from_measure, to_measure: unbounded integers, two "omitted" flags',
        bounds={'quick': 'every M (length of a symbolic list), every integer pair, each side given or omitted', 'thorough': 'same'},
